@@ -153,10 +153,10 @@ impl Slot {
     /// Releases a slot and increments its version, invalidating all handles.
     /// Returns an `EcsError::VersionOverflow` if the version increment overflows.
     #[inline(always)]
-    pub(crate) fn release(&mut self, index_next_free: SlotIndex) {
+    pub(crate) fn release(&mut self, index_next_free: SlotIndex, next_version: SlotVersion) {
         debug_assert!(self.is_free() == false);
         self.index = index_next_free;
-        self.version = self.version.next();
+        self.version = next_version;
     }
 }
 
